@@ -403,12 +403,18 @@ def explore_frozen(chk, extra):
             runs.append((obj, label, mode, before, snapshot(obj), outcome, res))
         if not runs:
             continue
-        (fo, label, mode, fb, fa, fout, fres), (to, _, _, _, _, tout, tres) = runs
+        (fo, label, mode, fb, fa, fout, fres), (to, _, _, tb, ta, tout, tres) = runs
         tried += 1
         raised += fout != "returned"
         problem = None
         if fa != fb:
             problem = f"changed the frozen receiver ({fout})"
+        elif mode == "mutate" and tout == "returned" and ta != tb and fout != "FrozenInstanceError":
+            # the same assignment / deletion / _inplace=True call succeeds and CHANGES the non-frozen twin:
+            # on the frozen instance it must raise FrozenInstanceError (no-op calls and calls that fail
+            # argument validation on the twin too are exempt, see DESIGN 9.3)
+            problem = (f"in-place call {'returned' if fout == 'returned' else 'raised ' + fout} on the frozen instance "
+                       f"instead of raising FrozenInstanceError (it changes the non-frozen twin)")
         elif mode == "cow":
             if fout != tout and not (fout != "returned" and tout != "returned"):
                 problem = f"outcome {fout} on the frozen class, {tout} on its non-frozen twin"
@@ -430,5 +436,5 @@ def explore_frozen(chk, extra):
     extra["wide_frozen_twin_exploration"] = {
         "paired_calls": tried, "raised_on_frozen": raised,
         "rule": "implementation only: class zoo declared frozen=True next to its non-frozen twin; the same call on both; "
-                "in-place calls / assignment / deletion change nothing on the frozen instance; copy-on-write calls leave it "
+                "in-place calls / assignment / deletion change nothing on the frozen instance and raise FrozenInstanceError whenever the same call changes the twin; copy-on-write calls leave it "
                 "unchanged and have the twin's outcome (exception or structurally equal result)"}
